@@ -7,7 +7,7 @@ from harness import gen
 from harness.framework import Suite
 
 PID = "C06"
-LEAN_MODS = ["SwcVerif.Props.C06", "SwcVerif.Props.C06Gen", "SwcVerif.Props.C06Cut"]
+LEAN_MODS = ["SwcVerif.Props.C06", "SwcVerif.Props.C06Gen", "SwcVerif.Props.C06Cut", "SwcVerif.Props.C06ShortTip"]
 TRANSLATE_ALGO = ["AlgoTraverse", "AlgoSubtree", "AlgoNode", "AlgoCut", "AlgoShortTip"]   # Gen/AlgoSubtree.lean is regenerated on every run from swc_utils/subtree.py (to_sub_topology,
 # get_subtree_impl and its collecting lambda, propagate_removal and its closure); it calls the traversal generated into Gen/AlgoTraverse.lean;
 # Gen/AlgoCut.lean from tree_utils.py (to_subtree, cut_tree in both overloads with the closures _enter / _leave that call the user's callback)
@@ -34,9 +34,16 @@ THEOREMS = [
     "C06.generated_orderEnter_eq_model", "C06.generated_cutByOrder_eq_model",
     # CutByType.__call__ as translated (the removals set, the leave closure, traversal, to_subtree) equals Sub.cutByType
     "RefineCut.typeLeave_closure", "RefineCut.typeLeaveL_step", "RefineCut.cutByType_refines", "C06.generated_cutByType_eq_model",
+    # Gen/AlgoShortTip.lean (transforms/tree.py::CutShortTipBranch): the generated `_leave` per node (the while walk down the first children,
+    # the loop over the children's values, the callback list), the whole traversal, and `__call__` = Sub.cutShortTip with the user callbacks
+    # called once per reported branch
+    "RefineShortTip.while_walk", "RefineShortTip.for2_step", "RefineShortTip.for2_loop", "RefineShortTip.tipLeave_node",
+    "RefineShortTip.spec_tipLeave", "RefineShortTip.cbOk_top", "RefineShortTip.tipRemoved_eq", "RefineShortTip.cutShortTip_refines",
+    "C06.generated_cutShortTip_eq_model", "C06.generated_cutShortTip_removed", "C06.generated_cutShortTip_calls", "C06.generated_tipLeave_node",
 ]
 TRUSTED = ["hand-written models Model/Subtree.lean of to_sub_topology / propagate_removal / get_subtree_impl / to_subtree / cut_tree / CutByType / "
-           "CutByFurcationOrder / CutShortTipBranch (tied by the c06.ops correspondence: new parents and new→old mapping compared exactly)"]
+           "CutByFurcationOrder / CutShortTipBranch (tied by the c06.ops correspondence: new parents and new→old mapping compared exactly; all of them are "
+           "additionally proved equal to the definitions generated from the source on every run, Refine/Subtree.lean, Refine/Cut.lean, Refine/ShortTip.lean)"]
 ASSUMPTIONS = [
     "the traversal loop is C04's machine; numpy fancy indexing `col[mapping]` is `mapping.map col`",
     "CutShortTipBranch: edge lengths are compared as exact numbers (generated trees have axis-aligned integer edges, so float sums are exact)",
@@ -951,4 +958,4 @@ TECHNIQUE = ("Lean 4 theorems by structural induction (via C04's loop = recursio
 LEVEL_TEXT = ("Kernel-checked for every tree shape and numbering: the kept rows are exactly the designated nodes, the compaction renumbers them 0..m-1 in order, "
               "every kept non-root row's new parent is the new id of its old parent, the new root has none, the mapping lists the old ids, every column is read "
               "through the mapping. Removal marks reach exactly the descendants of marked nodes.")
-LEVEL_NOTE = "Trusted: Lean kernel; the imperative translator and its semantics library Model/Py.lean for to_sub_topology / get_subtree_impl / propagate_removal (cross-checked by running the generated definitions, ops gsubtopo / gsubtree / gtosub), and for to_subtree / cut_tree with its closures _enter / _leave calling the user's callback / CutByType.__call__ / CutByFurcationOrder._enter (Gen/AlgoCut.lean, proved equal to Sub.toSubtree / cutTreeEnter / cutTreeLeave / cutByType / cutByOrder in Refine/Cut.lean, ops gtosubtree / gcutenter / gcutdepth / gcutleave / gcutleaveset / gcuttype / gcutorder); the remaining hand-written callback model (CutShortTipBranch) tied by correspondence (exhaustive for all sorted trees with n ≤ 4/5); numpy fancy indexing."
+LEVEL_NOTE = "Trusted: Lean kernel; the imperative translator and its semantics library Model/Py.lean for to_sub_topology / get_subtree_impl / propagate_removal (cross-checked by running the generated definitions, ops gsubtopo / gsubtree / gtosub), and for to_subtree / cut_tree with its closures _enter / _leave calling the user's callback / CutByType.__call__ / CutByFurcationOrder._enter (Gen/AlgoCut.lean, proved equal to Sub.toSubtree / cutTreeEnter / cutTreeLeave / cutByType / cutByOrder in Refine/Cut.lean, ops gtosubtree / gcutenter / gcutdepth / gcutleave / gcutleaveset / gcuttype / gcutorder), and for CutShortTipBranch._leave / __call__ with its recording lambda on the callback list (Gen/AlgoShortTip.lean + Model/PyShortTip.lean, proved equal to Sub.cutShortTip with the user callbacks called once per reported branch in Refine/ShortTip.lean, op gcuttip; glue: self.thre / n.distance(child) are parameters, a Tree.Branch is the list of its node handles, integer edge lengths); numpy fancy indexing."
